@@ -280,6 +280,7 @@ Definition enc_event (e : Session.event) : list Z :=
   | EvConnect c v3 => [1; Z.of_nat c; boolz v3]
   | EvHs c p g => [2; Z.of_nat c; Z.of_N p; boolz g]
   | EvData c p k f => [3; Z.of_nat c; Z.of_N p; Z.of_nat k; Z.of_N f]
+  | EvData2 c f => [3; Z.of_nat c; 0; 0; Z.of_N f]
   | EvAuthOk c k => [4; Z.of_nat c; Z.of_nat k]
   | EvClose c => [5; Z.of_nat c]
   end.
